@@ -30,6 +30,8 @@ def _walk_own(fnode):
     while todo:
         n = todo.pop()
         yield n
+        if isinstance(n, (ast.FunctionDef, ast.AsyncFunctionDef, ast.Lambda, ast.ClassDef)):
+            continue
         for c in ast.iter_child_nodes(n):
             if isinstance(c, (ast.FunctionDef, ast.AsyncFunctionDef, ast.Lambda, ast.ClassDef)):
                 continue
@@ -73,6 +75,17 @@ def assigned_names(body_nodes):
     return names, attrs, mutated
 
 
+def _oblige_conjuncts(st, name, goal, meta):
+    """one instance of the obligation per top-level conjunct of the invariant: smaller queries, and a refuted
+    conjunct gets a counter-model instead of a timeout on the whole conjunction"""
+    t = goal.t if isinstance(goal, SBool) else goal
+    if not isinstance(t, bool) and z3.is_and(t):
+        for c in t.children():
+            st.oblige(name, c, meta)
+    else:
+        st.oblige(name, goal, meta)
+
+
 def _call_pred(interp, pred, env):
     """Call a sidecar predicate, passing the values of the names it asks for."""
     params = _param_names(pred)
@@ -92,7 +105,7 @@ def _param_names(pred):
 
 
 def _env_of(interp, frame, extra):
-    env = {}
+    env = {'ghost': interp.st.ghost, 'trace': interp.st.trace}     # ghost state / events (unless shadowed by a local)
     if interp.collect is not None:
         env['yielded'] = interp.collect[1]
     if frame.info.filename.endswith('functools_model.py'):
@@ -107,6 +120,9 @@ def _env_of(interp, frame, extra):
         env.update(d)
     env.update(frame.locals)
     env.update(interp.reg.ghost_env)
+    # ghost state / ghost event trace of the path (as in contract clauses); a local of that name wins
+    env.setdefault('ghost', interp.st.ghost)
+    env.setdefault('trace', interp.st.trace)
     env.update(extra)
     return env
 
@@ -122,6 +138,8 @@ def _havoc(interp, frame, spec, modified_names, tag):
                               % (spec.qname, spec.ordinal, name))
         if ty == 'local':      # a loop-local temporary: dead at loop head
             frame.locals.pop(name, None)
+            continue
+        if ty == 'iter':
             continue
         frame.locals[name] = ty.make(interp, '%s@%s' % (name, tag))
     from .api import MListOf
@@ -161,6 +179,17 @@ def _havoc(interp, frame, spec, modified_names, tag):
             if obj is None:
                 raise Unsupported('modifies entry %r: unknown object' % name)
             ty.havoc_in_place(interp, obj, '%s@%s' % (name, tag))
+            continue
+        if ty == 'iter':
+            # an iterator over a symbolic sequence that the body advances (nested loops over it, calls that
+            # consume it): its position is arbitrary, but never before the position at loop entry
+            cur = frame.locals.get(name)
+            if not isinstance(cur, models.SIter):
+                raise Unsupported('modifies %r: not an iterator over a symbolic sequence' % name)
+            p0 = to_z3(cur.pos) if not isinstance(cur.pos, int) else z3.IntVal(cur.pos)
+            p1 = interp.st.fresh_int('%s.pos@%s' % (name, tag))
+            interp.st.assume(z3.And(p1 >= p0, z3.Or(p1 <= cur.xs.length, p1 == p0)))
+            cur.pos = wrap(p1)
             continue
         if name == 'yielded':
             if interp.collect is None:
@@ -202,6 +231,28 @@ def _havoc(interp, frame, spec, modified_names, tag):
                 frame.locals[name] = ty.make(interp, '%s@%s' % (name, tag))
 
 
+def _iter_positions(frame, exempt):
+    """positions of the iterators over symbolic sequences that the frame can see"""
+    out = {}
+    for d in list(frame.enclosing) + [frame.locals]:
+        for name, v in d.items():
+            if isinstance(v, models.SIter) and v is not exempt:
+                out[id(v)] = (name, v, v.pos)
+    return out
+
+
+def _check_iterators_unchanged(spec, before, frame, exempt):
+    """an iterator that the loop body advanced must be declared in modifies (as 'iter'): otherwise the
+    arbitrary iteration would start from the position at loop entry only"""
+    for key, (name, it, pos0) in before.items():
+        same = it.pos is pos0 or (not isinstance(it.pos, int) and not isinstance(pos0, int)
+                                  and to_z3(it.pos).eq(to_z3(pos0))) \
+            or (isinstance(it.pos, int) and isinstance(pos0, int) and it.pos == pos0)
+        if not same and spec.modifies.get(name) != 'iter':
+            raise Unsupported('loop %s#%s advances the iterator %r which is not declared in modifies '
+                              '(%s=\'iter\')' % (spec.qname, spec.ordinal, name, name))
+
+
 def _check_frame(spec, node):
     names, attrs, mutated = assigned_names(node.body + node.orelse)
     target_names = set()
@@ -228,7 +279,7 @@ def exec_while(interp, node, frame):
     label = '%s : loop#%s' % (fname, ordinal)
     # (1) invariant on entry
     inv0 = interp.truth(_call_pred(interp, spec.invariant, _env_of(interp, frame, {})))
-    st.oblige(label + ' invariant[entry]', inv0, {'kind': 'loop-entry'})
+    _oblige_conjuncts(st, label + ' invariant[entry]', inv0, {'kind': 'loop-entry'})
     which = st.choose(2)
     _havoc(interp, frame, spec, modified, 'L%s' % ordinal)
     inv = interp.truth(_call_pred(interp, spec.invariant, _env_of(interp, frame, {})))
@@ -241,13 +292,15 @@ def exec_while(interp, node, frame):
         dec0 = None
         if spec.decreases is not None:
             dec0 = _call_pred(interp, spec.decreases, _env_of(interp, frame, {}))
+        its = _iter_positions(frame, None)
         r = interp.exec_block(node.body, frame)
+        _check_iterators_unchanged(spec, its, frame, None)
         if r is not None and r[0] not in ('continue',):
             if r[0] == 'break':
                 return None
             return r
         inv2 = interp.truth(_call_pred(interp, spec.invariant, _env_of(interp, frame, {})))
-        st.oblige(label + ' invariant[preserved]', inv2, {'kind': 'loop-preserve'})
+        _oblige_conjuncts(st, label + ' invariant[preserved]', inv2, {'kind': 'loop-preserve'})
         if dec0 is not None:
             dec1 = _call_pred(interp, spec.decreases, _env_of(interp, frame, {}))
             st.oblige(label + ' variant[decreases]',
@@ -339,10 +392,13 @@ def _for_symbolic(interp, node, frame, src):
     n = xs.length
 
     def env(i):
-        return _env_of(interp, frame, {'_i': wrap(i), '_xs': xs, '_n': wrap(n), '_start': wrap(start)})
+        e = {'_i': wrap(i), '_xs': xs, '_n': wrap(n), '_start': wrap(start)}
+        if interp.loop_index_stack:
+            e['_o'] = wrap(interp.loop_index_stack[-1])      # index of the enclosing symbolic loop
+        return _env_of(interp, frame, e)
 
     inv0 = interp.truth(_call_pred(interp, spec.invariant, env(start)))
-    st.oblige(label + ' invariant[entry]', inv0, {'kind': 'loop-entry'})
+    _oblige_conjuncts(st, label + ' invariant[entry]', inv0, {'kind': 'loop-entry'})
     which = st.choose(2)
     tag = 'L%s' % ordinal
     _havoc(interp, frame, spec, modified, tag)
@@ -358,12 +414,17 @@ def _for_symbolic(interp, node, frame, src):
         if it_cell is not None:
             it_cell.pos = wrap(i + 1)
         interp.assign(node.target, x, frame)
+        its = _iter_positions(frame, it_cell)
         interp.loop_index_stack.append(i)
         try:
             r = interp.exec_block(node.body, frame)
         finally:
             interp.loop_index_stack.pop()
+        _check_iterators_unchanged(spec, its, frame, it_cell)
         if r is not None and r[0] != 'continue':
+            if it_cell is not None and it_cell.eager:
+                raise Unsupported('early exit from a loop over a generator that is used through its contract '
+                                  '(its items and effects are taken at the call: it must be consumed completely)')
             if r[0] == 'break':
                 return None
             return r
@@ -372,7 +433,7 @@ def _for_symbolic(interp, node, frame, src):
             # the body may itself have consumed more of the iterator (e.g. `f.writelines(lines)`)
             nxt = to_z3(it_cell.pos) if not isinstance(it_cell.pos, int) else z3.IntVal(it_cell.pos)
         inv2 = interp.truth(_call_pred(interp, spec.invariant, env(nxt)))
-        st.oblige(label + ' invariant[preserved]', inv2, {'kind': 'loop-preserve'})
+        _oblige_conjuncts(st, label + ' invariant[preserved]', inv2, {'kind': 'loop-preserve'})
         raise PathAbort()
     # exit: all elements consumed
     if isinstance(ordinal, int):
